@@ -50,6 +50,8 @@ REQUIRED = [
     "target:fairlock",
     "target:tcp-threads",
     "target:udp-threads",
+    "target:tcp-directed-preemption",
+    "directed_pause_points_reached",
     "sender_suspended_while_other_called",
     "busy_errors_observed",
     "packets_checked",
@@ -64,7 +66,7 @@ def _packet(sender: int, seq: int, size: int) -> dict:
 
 
 def parse_wire(wire: bytes) -> tuple[list, str | None]:
-    proto = StreamProtocol(JSONSerializer())
+    proto = StreamProtocol(JSONSerializer(limit=10_000_000))  # the harness parser must not be the one that rejects a big packet
     try:
         out, left = drive.drive_copy(proto, [wire] if wire else [])
     except Exception as exc:  # noqa: BLE001
@@ -497,6 +499,116 @@ def udp_threads_case(ctx, rng: random.Random, seed: int) -> str | None:
     return None
 
 
+def _send_path_funcs() -> list:
+    from easynetwork.clients.tcp import TCPNetworkClient
+    from easynetwork.lowlevel import _utils
+    from easynetwork.lowlevel.api_sync.endpoints.stream import StreamEndpoint
+    from easynetwork.lowlevel.api_sync.transports.base_selector import SelectorBaseTransport, SelectorStreamTransport
+    from easynetwork.lowlevel.api_sync.transports.socket import SocketStreamTransport
+
+    fs = [TCPNetworkClient.send_packet, StreamEndpoint.send_packet, SocketStreamTransport.send_all_from_iterable, SelectorStreamTransport.send, SelectorBaseTransport._retry]
+    lw = getattr(_utils.lock_with_timeout, "__wrapped__", None)
+    if lw is not None:
+        fs.append(lw)
+    return fs
+
+
+def directed_points() -> list[tuple[str, int]]:
+    from vlib import preempt
+
+    return preempt.points(_send_path_funcs())
+
+
+def tcp_directed_case(ctx, point: tuple[str, int], skip: int = 0) -> str | None:
+    """one preemption: the thread sending packet A is paused before line `point` of the blocking send path while another thread sends
+    packet B (bounded wait: B may legitimately block behind A's lock), then resumes. The wire must hold A and B whole."""
+    from easynetwork.clients.tcp import TCPNetworkClient
+
+    from vlib import preempt
+
+    c, s = _dummy_pair()
+    c.setsockopt(socket.SOL_SOCKET, socket.SO_SNDBUF, 16384)
+    s.setsockopt(socket.SOL_SOCKET, socket.SO_RCVBUF, 16384)
+    client = TCPNetworkClient(c, StreamProtocol(JSONSerializer()), retry_interval=0.05)
+    results: list = []
+    wire = bytearray()
+
+    start_reading = threading.Event()
+
+    def reader():
+        # nobody reads until the preemption has happened (or 0.7 s): the paused sender is then really mid-packet, blocked on a full
+        # socket buffer, and the lines inside the retry loops are reached again and again
+        start_reading.wait(30)
+        s.settimeout(0.2)
+        while True:
+            try:
+                d = s.recv(65536)
+            except TimeoutError:
+                continue
+            except OSError:
+                return
+            if not d:
+                return
+            wire.extend(d)
+
+    def send(i: int, q: int, size: int):
+        try:
+            client.send_packet(_packet(i, q, size), timeout=30)
+            results.append((i, q, size, "ok"))
+        except Exception as exc:  # noqa: BLE001
+            results.append((i, q, size, f"error:{type(exc).__name__}: {exc}"))
+
+    other_done = threading.Event()
+    other: list = []
+
+    def at_pause():
+        t = threading.Thread(target=lambda: (send(1, 0, 9000), other_done.set()), daemon=True)
+        other.append(t)
+        t.start()
+        other_done.wait(0.3)
+        start_reading.set()
+
+    rt = threading.Thread(target=reader, daemon=True)
+    rt.start()
+    fallback = threading.Timer(0.4, start_reading.set)
+    fallback.daemon = True
+    fallback.start()
+    pp = preempt.PausePoint(_send_path_funcs(), point[0], point[1], at_pause, skip=skip)
+    with pp:
+        pp.armed = True
+        va = threading.Thread(target=lambda: (send(0, 0, 400000), send(0, 1, 20000)), daemon=True)
+        va.start()
+        va.join(60)
+        for t in other:
+            t.join(60)
+    stuck = va.is_alive() or any(t.is_alive() for t in other)
+    fallback.cancel()
+    start_reading.set()
+    client.close()
+    rt.join(60)
+    s.close()
+    if rt.is_alive():
+        ctx.inconclusive_because("the raw reader thread did not reach end-of-stream within its 60 s watchdog")
+        return None
+    if stuck:
+        return f"a sender thread never returned (60 s) with one preemption before {point}"
+    if pp.fired:
+        ctx.count("directed_pause_points_reached")
+        if not other_done.is_set() or True:
+            pass
+    errors = [r for *_x, r in results if r != "ok"]
+    if errors:
+        return f"send_packet failed in a thread: {errors[0]}"
+    wire_packets, why = parse_wire(bytes(wire))
+    if why:
+        return why
+    why = judge([(i, q, sz) for i, q, sz, r in results], wire_packets, True)
+    if why:
+        return why
+    ctx.count("packets_checked", len(wire_packets))
+    return None
+
+
 def plan(tier: str, seed: int) -> list[dict]:
     n = 25 if tier == "quick" else 600
     th = 2 if tier == "quick" else 30
@@ -531,8 +643,22 @@ def run_shard(params: dict, ctx) -> None:
         ctx.case(True, "udp-threads", params["seed"], it)
         if why:
             ctx.violation("threads:udp", f"[UDPNetworkClient threads] {why}", {"target": "udp-threads", "seed": params["seed"], "it": it})
+    # directed preemption over every line of the blocking send path
+    pts = [(p, sk) for p in directed_points() for sk in (0, 2)]  # first and third time the line is reached
+    for j in range(params["seed"] % 16, len(pts), 16):
+        pt, sk = pts[j]
+        ctx.count("target:tcp-directed-preemption")
+        why = tcp_directed_case(ctx, pt, sk)
+        ctx.case(True, "tcp-directed", pt, sk)
+        if why:
+            ctx.violation("threads:tcp-directed", f"[TCPNetworkClient threads, pause before {pt} (reach #{sk + 1})] {why}", {"target": "tcp-directed", "point": list(pt), "skip": sk, "seed": params["seed"], "it": 0})
     ctx.sample({"targets": ["endpoint", "async-client", "server-client", "tls", "fairlock", "tcp-threads", "udp-threads"], "senders": "2..8", "packets_each": "1..6", "fragment": "1|7|64|1000 bytes, 0..2 suspensions"})
 
 
 def replay(witness: dict, ctx) -> None:
+    if witness.get("target") == "tcp-directed":
+        why = tcp_directed_case(ctx, tuple(witness["point"]), witness.get("skip", 0))
+        if why:
+            ctx.violation("threads:tcp-directed", why, witness)
+        return
     run_shard({"seed": witness["seed"], "iters": witness["it"] + 1, "threads": witness["it"] + 1 if "threads" in witness["target"] else 0}, ctx)
